@@ -430,6 +430,20 @@ pub async fn plan_compaction(""", expect="mutator:dataset::optimize::drop_old_fi
             .collect::<Vec<RewrittenIndex>>();
         Vec::new()
     } else if""", expect="rewritten_indices"),
+    # ------------------------------------------------------------------ C20 trainers
+    dict(name="c20_trainer_assumes_dense_ids", prop="C20", file="rust/lance-index/src/scalar/zonemap.rs", what="zone trainer looks for fragment current+1 again (the repaired defect)",
+         old="                    fragment_id != self.cur_fragment_id\n", new="                    fragment_id == self.cur_fragment_id + 1\n",
+         expect="ZoneMapIndexBuilder:no-arithmetic"),
+    dict(name="c20_bloom_fragment_switch_before_flush", prop="C20", file="rust/lance-index/src/scalar/bloomfilter.rs", what="bloom trainer switches the current fragment before the zone is flushed",
+         old="""                    if self.cur_zone_offset > 0 {
+                        self.new_block(self.cur_fragment_id)?;
+                    }
+                    self.cur_fragment_id = row_addrs_array.value(array_offset) >> 32;""",
+         new="""                    self.cur_fragment_id = row_addrs_array.value(array_offset) >> 32;
+                    if self.cur_zone_offset > 0 {
+                        self.new_block(self.cur_fragment_id)?;
+                    }""",
+         expect="BloomFilterIndexBuilder:fragment-changes-on-empty-zone"),
     # ------------------------------------------------------------------ C19 range translation
     dict(name="c19_range_gt_becomes_gteq", prop="C19", file=EX, what="`x > a AND x < b` keeps rows with x = a",
          old="(Operator::Gt, Operator::Lt) => (Bound::Excluded(left_value), Bound::Excluded(right_value)),",
